@@ -56,6 +56,12 @@ TRUSTED = [
     "earlier categorical main effect is present); the general rule is property C03",
 ]
 ASSUMPTIONS = [
+    "'numeric columns pass through unchanged' is checked on exact values (integers as Python ints, never via float "
+    "text): with output='pandas' (one dtype per column) and for a matrix with a single column every cell must equal "
+    "its input exactly; in a numpy array / sparse matrix with several columns a cell may instead hold the float64 image "
+    "of its input, because such a container has ONE dtype for all columns and stacking an integer column with the "
+    "intercept, a float column or a sparse dummy column necessarily yields float64 — that rounding is the container's "
+    "(numpy/scipy type promotion), not a change made by the library",
     "cells_numeric is stated for the model's `build` under the hypothesis `TableOK` (text and categorical dtypes classified "
     "CATEGORICAL); `cells_numeric_live` discharges the hypothesis for the generated table of the current tree",
     "category labels are compared by their printed form (`str(level)`), text values are Python `str` (mixed-type object "
@@ -67,7 +73,8 @@ RULE = (
     "dtypes: every dtype label of translate.dtype_builders x {pandas, narwhals on pandas, narwhals on pyarrow} x "
     "{pandas, numpy, sparse} with formula `A + a` (A of the dtype under test, a float64), random values (1-6 rows; text from a "
     "pool with upper/lower case, digits, non-ASCII, spaces; categorical with random declared order and unused categories; "
-    "nulls where the dtype can hold them), plus random frames of 1-3 columns of random dtypes with intercept on/off, "
+    "nulls where the dtype can hold them; integer columns of every width hold the extremes of their dtype and the "
+    "neighbours of +-2**53), the same for every integer dtype standing alone (`0 + n`, both rank settings), plus random frames of 1-3 columns of random dtypes with intercept on/off, "
     "ensure_full_rank on/off, na_action drop/raise/ignore; levels: random value lists with/without declared levels. "
     "non-trivial = a text or categorical column with at least two distinct values; distinct by canonical JSON"
 )
@@ -108,6 +115,24 @@ def nullable(label, family):
 # ----------------------------------------------------------------------------- generators
 
 
+def int_bounds(label):
+    """(min, max) of an integer dtype label (`int8`, `UInt64`, `int64[pyarrow]`, ...)"""
+    base = label.split("[")[0].lower()
+    bits = int("".join(ch for ch in base if ch.isdigit()))
+    return (0, 2**bits - 1) if base.startswith("u") else (-(2 ** (bits - 1)), 2 ** (bits - 1) - 1)
+
+
+def int_pool(label):
+    """[min, max, ...]: extremes of the dtype, their neighbours, and the integers around +-2**53 that fit"""
+    lo, hi = int_bounds(label)
+    cands = [lo, hi, lo + 1, hi - 1, 2**53 + 1, -(2**53) - 1, 2**53 - 1, 2**53, 2**53 + 3, -(2**53) - 3, 2**62 + 1, 0, 1]
+    out = []
+    for v in cands:
+        if lo <= v <= hi and v not in out:
+            out.append(v)
+    return out
+
+
 def gen_column(rng, name, label, family, nrows, allow_null=True):
     """column description: {name,label,family,vals,(declared)}; numeric vals are 'p/q' strings"""
     null_p = 0.15 if (allow_null and nullable(label, family) and rng.random() < 0.5) else 0.0
@@ -134,10 +159,16 @@ def gen_column(rng, name, label, family, nrows, allow_null=True):
         if label.lower().startswith(("float", "double")):
             small = "16" in label
             col["vals"] = [maybe(fstr(Fraction(rng.randint(-12, 12), 1 if small else rng.choice([1, 2, 4])))) for _ in range(nrows)]
-        elif label.lower().startswith("u"):
-            col["vals"] = [maybe(fstr(rng.randint(0, 9))) for _ in range(nrows)]
         else:
-            col["vals"] = [maybe(fstr(rng.randint(-5, 9))) for _ in range(nrows)]
+            # integers: small values mixed with the extremes of the dtype and the neighbours of 2**53 (the first
+            # integers a float64 cannot hold), so that "unchanged" is tested on values that do not survive a detour
+            # through floating point
+            pool = int_pool(label)
+            extreme = rng.random() < 0.7
+            vals = [rng.choice(pool) if (extreme and rng.random() < 0.6) else rng.randint(max(pool[0], -5), 9) for _ in range(nrows)]
+            if extreme and nrows:
+                vals[rng.randrange(nrows)] = rng.choice(pool[:2] + [v for v in pool if abs(v) > 2**53][:4])
+            col["vals"] = [maybe(fstr(v)) for v in vals]
     else:
         col["vals"] = [maybe(rng.random() < 0.5) for _ in range(nrows)]
     return col
@@ -148,6 +179,17 @@ def base_case(rng, label, family, mat, output):
     a = gen_column(rng, "a", "float64", "numeric", nrows, allow_null=rng.random() < 0.3)
     A = gen_column(rng, "A", label, family, nrows)
     return dict(kind="dtypes", cols=[A, a], intercept=True, efr=True, na="drop", mat=mat, output=output)
+
+
+def alone_case(rng, label, mat, output, efr):
+    """`0 + n`: an integer column on its own (the matrix keeps the integer dtype for every output type)"""
+    nrows = rng.randint(1, 5)
+    n = gen_column(rng, "n", label, "numeric", nrows, allow_null=False)
+    return dict(kind="dtypes", cols=[n], intercept=False, efr=efr, na="drop", mat=mat, output=output)
+
+
+def is_int_label(label, family):
+    return family == "numeric" and not label.lower().startswith(("float", "double"))
 
 
 def random_case(rng):
@@ -186,6 +228,10 @@ def cases(rng, tier):
     for _ in range(reps):
         for label, mat, out in combos:
             yield base_case(rng, label, bs[label][0], mat, out)
+        for label, mat, out in combos:
+            if is_int_label(label, bs[label][0]):
+                for efr in (True, False):
+                    yield alone_case(rng, label, mat, out, efr)
     for _ in range({"quick": 300, "thorough": 4000, "search": 150}[tier]):
         yield random_case(rng)
     for _ in range({"quick": 150, "thorough": 1500, "search": 0}[tier]):
@@ -195,6 +241,8 @@ def cases(rng, tier):
 def describe(c):
     if c["kind"] == "levels":
         return "levels"
+    if len(c["cols"]) == 1 and c["cols"][0]["name"] == "n":
+        return f"alone,{c['cols'][0]['label']},{c['mat']},{c['output']},efr={int(c['efr'])}"
     return f"{c['cols'][0]['label']},{c['mat']},{c['output']}" if len(c["cols"]) == 2 and c["cols"][1]["name"] == "a" else f"random,{c['mat']},{c['output']},na={c['na']}"
 
 
@@ -329,14 +377,30 @@ def request(c, o):
                 cols=[col_request(col) for col in c["cols"]])
 
 
-def _same_cell(a, b):
+def float_image(fr):
+    """the value a float64 holds for the exact number `fr` (round to nearest)"""
+    return Fraction(float(fr))
+
+
+def allow_common_dtype(c, ncols):
+    """May a cell hold the float64 image of its input instead of the input itself?
+
+    A pandas frame has one dtype per column, so a numeric column must come out exactly as it went in. A numpy array
+    or sparse matrix has ONE dtype for all columns: stacked with a float column (the intercept, a float input, a sparse
+    dummy column) an integer column is necessarily held in the common dtype float64. That conversion is the container's,
+    not a change of the numbers by the library, and is accepted -- but only when the matrix has more than one column."""
+    return c["output"] != "pandas" and ncols > 1
+
+
+def _same_cell(a, b, allow_float=False):
     if isinstance(a, dict) and "b" in a:
         a = "1" if a["b"] else "0"
     if isinstance(a, dict) or isinstance(b, dict):
         return a == b
     if a == "nan" or b == "nan":
         return a == b
-    return Fraction(a) == Fraction(b)
+    x, y = Fraction(a), Fraction(b)
+    return x == y or (allow_float and x == float_image(y))
 
 
 def agree(c, o, m):
@@ -356,7 +420,8 @@ def agree(c, o, m):
     if mn != o["names"]:
         return f"column names differ: impl {o['names']} vs model {mn}"
     for j, (mc, oc) in enumerate(zip(m["columns"], o["cols"])):
-        if len(mc["values"]) != len(oc) or not all(_same_cell(a, b) for a, b in zip(oc, mc["values"])):
+        af = allow_common_dtype(c, len(mn))
+        if len(mc["values"]) != len(oc) or not all(_same_cell(a, b, af) for a, b in zip(oc, mc["values"])):
             return f"column {mc['name']}: impl {oc} vs model {mc['values']}"
     return None
 
@@ -453,8 +518,18 @@ def oracle(c, o):
             else:
                 want = [None if v is None else Fraction(v) for v in vals]
             got = [None if x == "nan" else Fraction(x) for x in colvals(pos)]
-            if got != want:
-                return f"numeric column {nm} ({col['label']}) is {cols[pos]}, the input values are {[None if w is None else fstr(w) for w in want]}"
+            af = allow_common_dtype(c, len(names))
+
+            def unchanged(g, w):
+                if g is None or w is None:
+                    return g is None and w is None
+                return g == w or (af and g == float_image(w))
+
+            if len(got) != len(want) or not all(unchanged(g, w) for g, w in zip(got, want)):
+                how = ("exactly (integers compared as Python ints)" if not af else
+                       "exactly or as their float64 image (the matrix has one dtype for all its columns)")
+                return (f"numeric column {nm} ({col['label']}) is {cols[pos]}, the input values are "
+                        f"{[None if w is None else fstr(w) for w in want]}; they must come out {how}")
             pos += 1
     if pos != len(names):
         return f"unexpected extra columns {names[pos:]}"
